@@ -628,6 +628,10 @@ fn spawn_async_ao_list_in_task'''),
         ('alias-body-not-escaped', 'brush-builtins/src/alias.rs', "    std::format!(\"'{}'\", s.replace('\\'', \"'\\\\''\"))", "    std::format!(\"'{}'\", s.replace('\\'', \"'\"))"),
         ('alias-quote-escaped-with-backslash-inside-quotes', 'brush-builtins/src/alias.rs', "s.replace('\\'', \"'\\\\''\")", "s.replace('\\'', \"\\\\'\")"),
     ],
+    'U29': [
+        ('declared-but-unset-associative-array-gets-a-numeric-subscript', 'brush-core/src/expansion.rs', "                    matches!(\n                        var.value(),\n                        ShellValue::AssociativeArray(_)\n                            | ShellValue::Unset(ShellValueUnsetType::AssociativeArray)\n                    )\n                } else {\n                    false\n                };\n\n                let index_to_use = self\n                    .expand_array_index(index.as_str(), is_set_assoc_array)", "                    matches!(var.value(), ShellValue::AssociativeArray(_))\n                } else {\n                    false\n                };\n\n                let index_to_use = self\n                    .expand_array_index(index.as_str(), is_set_assoc_array)"),
+        ('subscript-always-a-string-key', 'brush-core/src/expansion.rs', "                    .expand_array_index(index.as_str(), is_set_assoc_array)\n                    .await?;\n                (name, Some(index_to_use))", "                    .expand_array_index(index.as_str(), true)\n                    .await?;\n                (name, Some(index_to_use))"),
+    ],
     'U16': [
         ('tilde-not-flagged-at-start', 'brush-core/src/escape.rs', "    matches!(c, '#' | '~')", "    matches!(c, '#')"),
         ('bang-not-flagged', 'brush-core/src/escape.rs', "            | '!'\n", ""),
